@@ -419,6 +419,10 @@ func (g *DocGen) val(t *Ty, depth int) string {
 // including calls that abort inside it.
 var FuncFamilies = []string{"replace", "split", "join", "pad", "zip", "group_by", "from_items", "merge", "sort_by", "find", "trim", "to_string", "contains", "map", "max_by", "sort", "slice", "let", "hash"}
 
+// HotOnlyFamilies are used by the hot index space of C07 only (adding them to
+// FuncFamilies would re-deal the family runs of every seed).
+var HotOnlyFamilies = []string{"compare"}
+
 func GenFamilyExpr(r *Rng, fam string) *Expr {
 	cur := &Expr{K: KCur}
 	str := func() *Expr {
@@ -515,6 +519,24 @@ func GenFamilyExpr(r *Rng, fam string) *Expr {
 		e = &Expr{K: KSlice, C: []*Expr{pick(r, []*Expr{arr(), str()})}, N: []int{r.Intn(4) - 1, r.Intn(8) - 1, pick(r, []int{1, 2, -1, 3})}, F: []bool{r.P(2, 3), r.P(2, 3), r.P(1, 2)}}
 	case "let":
 		e = &Expr{K: KLet, Keys: []string{"a", "b"}, C: []*Expr{str(), arr(), &Expr{K: KList, C: []*Expr{{K: KVar, S: "a"}, {K: KVar, S: pick(r, []string{"b", "a", "c"})}}}}}
+	case "compare":
+		// ordering comparisons whose operands both come from the data, so that
+		// the same node sees other operand values from element to element,
+		// from call to call and from client to client
+		op := pick(r, []string{"<", "<=", ">", ">="})
+		rootNum := func() *Expr {
+			return mk(KSub, &Expr{K: KRoot}, pick(r, []*Expr{field("n"), field("m"), {K: KIndex, C: []*Expr{field("nums")}, N: []int{r.Intn(3)}}}))
+		}
+		switch r.Intn(4) {
+		case 0:
+			e = &Expr{K: KFilter, C: []*Expr{field("recs"), mkS(KBin, op, mk(KSub, field("pt"), field("x")), mk(KSub, field("pt"), field("y"))), field("id")}}
+		case 1:
+			e = &Expr{K: KFilter, C: []*Expr{field("nums"), mkS(KBin, op, cur, rootNum()), nil}}
+		case 2:
+			e = &Expr{K: KFilter, C: []*Expr{field("recs"), mkS(KBin, op, field("id"), rootNum()), field("name")}}
+		default:
+			e = &Expr{K: KList, C: []*Expr{mkS(KBin, op, field("n"), field("m")), mkS(KBin, pick(r, []string{"<", ">="}), field("m"), field("n")), mkS(KBin, op, numLit(r), field("n"))}}
+		}
 	default: // hash
 		e = &Expr{K: KHash, Keys: []string{"x", "y", pick(r, []string{"x", "z"})}, C: []*Expr{str(), arr(), obj()}}
 	}
